@@ -29,10 +29,15 @@ CONTEXTS = {
     'assign-param-arrow': 'const g = (p1) => p1 = <Foo>{{p1}}</Foo>;', 'assign-param-fn': 'function g(p1) {{ p1 = <Foo>{{p1}}</Foo>; return p1; }}',
     'assign-local': 'function g() {{ let l1 = 0; l1 = <Foo>{{l1}}</Foo>; return l1; }}', 'assign-param-arrow-block': 'const g = (p1) => {{ p1 = <Foo>{{p1}}</Foo>; return p1; }};',
     'assign-param-nested': 'const g = (p1) => () => (p1 = <Foo>{{p1}}</Foo>);', 'assign-local-block': 'function g() {{ {{ let l1 = 1; l1 = <C1>{{l1}}</C1>; }} }}',
+    'fn-then-empty-if': 'function g() {{ const r = @; if (v1) {{}} return r; }}', 'fn-then-empty-catch': 'function g() {{ const r = @; try {{ f1(); }} catch {{}} return r; }}',
+    'fn-then-empty-fn': 'function g() {{ const r = @; function noop() {{}} return r; }}', 'arrow-then-empty-block': 'const g = () => {{ const r = @; {{}} return r; }};',
+    'assign-then-empty': 'function g() {{ v1 = <Foo>{{v1}}</Foo>; class E {{ m() {{}} }} return v1; }}',
     'iife': '(() => {{ return @; }})();', 'async-arrow': 'const g = async () => @;', 'generator': 'function* g() {{ yield @; }}', 'if-no-block': 'function g() {{ if (v1) return @; return null; }}',
     'arrow-in-default': 'function g(cb = () => @) {{ return cb; }}', 'two-fns': 'function g() {{ return @; }}\nfunction h() {{ return @; }}', 'arrow-sibling': 'const g = () => @, h = () => @;',
 }
 SIBLINGS = {'none': ('', ''), 'pre-temp': ('const p = <Foo>{{f1()}}</Foo>;\n', ''), 'post-temp': ('', '\nconst r = <Foo>{{f1()}}</Foo>;'), 'pre-arrow': ('const p = () => <Foo>{{f1()}}</Foo>;\n', ''),
+            'post-empty-fn': ('', '\nfunction noop() {{}}'), 'post-empty-block': ('', '\n{{}}'), 'post-empty-method': ('', '\nclass E {{ m() {{}} }}'),
+            'post-empty-catch': ('', '\ntry {{ f1(); }} catch {{}}'), 'post-empty-if': ('', '\nif (v1) {{}}'), 'pre-empty-fn': ('function noop() {{}}\n', ''), 'post-empty-arrow': ('', '\nconst noop = () => {{}};'),
             'user-names': ('const _slot = 1, _createVNode = 2; function _isSlot() {{}}\n', ''), 'pre-assign': ('v1 = 3;\n', ''), 'post-fn': ('', '\nfunction r() {{ return <Foo>{{f1()}}</Foo>; }}')}
 
 
